@@ -371,6 +371,17 @@ def concrete_violation(extra_bounds=None):
     ptsw = np.array([-1.0, 0.1, 0.9])
     if not np.allclose(kw2.pdf(ptsw), refw.evaluate(ptsw), rtol=1e-10):
         return True, 'weighted GaussianKDE density is not the weighted kernel estimate of the training data (weights misaligned?)'
+    # sample_size: the density is the requested-rule kernel estimate of the stored resample
+    for rule_, nn_, ss_ in (('scott', 400, 60), (None, 120, 500), ('silverman', 300, 40)):
+        np.random.seed(3)
+        ks_ = GaussianKDE(sample_size=ss_, bw_method=rule_)
+        ks_.fit(x[:nn_])
+        ds_ = np.asarray(ks_.to_dict()['dataset'], dtype=float).ravel()
+        refs_ = stats.gaussian_kde(ds_, bw_method=rule_)
+        ptss_ = np.array([0.5, 3.0, 5.5])
+        if len(ds_) != ss_ or not np.allclose(ks_.pdf(ptss_), refs_.evaluate(ptss_), rtol=1e-9):
+            return True, (f'GaussianKDE(sample_size={ss_}, bw_method={rule_!r}) fitted on {nn_} points: the density is not the {rule_ or "scott"} kernel estimate '
+                          f'of the stored dataset of {len(ds_)} points ({np.asarray(ks_.pdf(ptss_)).tolist()} vs {refs_.evaluate(ptss_).tolist()})')
     k = GaussianKDE(bw_method='silverman')
     k.fit(x[:50])
     ref = stats.gaussian_kde(x[:50], bw_method='silverman')
